@@ -259,6 +259,11 @@ func (r *Run) Section(name string, n int, opts SectionOpts, fn func(c *Case)) {
 			n = 24
 		}
 	}
+	if only := os.Getenv("VERIF_ONLY_SECTION"); only != "" && !strings.HasPrefix(name, only) && r.replayFile == "" {
+		// diagnostic runs only: the other sections are skipped and the run ends INCONCLUSIVE
+		// when their Require counters are missing
+		return
+	}
 	if os.Getenv("VERIF_TIMING") != "" {
 		t0 := time.Now()
 		defer func() {
